@@ -999,7 +999,12 @@ def harvest(cap=150):
 
 def run_generic(ctx, per_doc=None):
     rng = ctx.rng
-    docs = LEDGERS + harvest()
+    import slotgrid
+    # the slot-grid fixtures with falsy siblings (FALSE / NULL / '' / zero).  The glued one is left out: changing a token's
+    # text IN PLACE where nothing separates it from its neighbour ('*Assets:B' with flag M, '{2 EUR,2000-01-01}' without
+    # the currency) changes how the line lexes - a layout matter the value properties do not address
+    fixed = LEDGERS + [t for t in slotgrid.FIXTURES if t not in LEDGERS and '\r\n' not in t]
+    docs = fixed + harvest()
     classes_seen, props_seen = set(), set()
     total = 0
     for di, text in enumerate(docs):
@@ -1016,7 +1021,7 @@ def run_generic(ctx, per_doc=None):
             classes_seen.add(type(m).__name__)
             for name, prop in value_props(type(m)).items():
                 cands.append((path, type(m).__name__, name))
-        if text in LEDGERS:
+        if text in fixed:
             # deterministic coverage: every property of every model with every value of its generator
             chosen = []
             for c in cands:
